@@ -441,10 +441,13 @@ let cmd_damage (ps : int) (image : string) (mutfile : string) : unit =
   let p = n_of_int ps in
   L.iteri (fun i line ->
     match L.filter (fun x -> x <> "") (S.split_on_char ' ' (S.trim line)) with
-    | [off; hx] ->
-        let off = int_of_string off and bytes = unhex hx in
-        let img = B.of_string base in
-        B.blit_string bytes 0 img off (S.length bytes);
+    | (_ :: _ :: _) as ws ->
+        let rec pairs l = match l with o :: h :: r -> (int_of_string o, unhex h) :: pairs r | _ -> [] in
+        let ps = pairs ws in
+        let need = L.fold_left (fun m (o, b) -> max m (o + S.length b)) (S.length base) ps in
+        let img = B.make need '\000' in
+        B.blit_string base 0 img 0 (S.length base);
+        L.iter (fun (o, b) -> B.blit_string b 0 img o (S.length b)) ps;
         let rd = reader_of_string (B.to_string img) in
         (match Tree.open_meta rd p with
          | Meta.SelPanic why -> Printf.printf "%d open:panic:%s\n" i (string_of_coq why)
